@@ -418,7 +418,11 @@ def run_concurrent(args):
         ts = [threading.Thread(target=writer), threading.Thread(target=reader), threading.Thread(target=reader, args=(False,))]
         for t in ts:
             t.start()
-        time.sleep(args["seconds"])
+        # run for the given time, and on a loaded machine longer: until the writer has done the work the guards count on
+        # (the verdict depends on the operations observed, not on the wall clock)
+        t_stop = time.monotonic() + args["seconds"]
+        while time.monotonic() < t_stop or (counts.get("writes", 0) < args.get("min_writes", 10 * args["seconds"]) and time.monotonic() < t_stop + 4 * args["seconds"]):
+            time.sleep(0.2)
         stop.set()
         for t in ts:
             t.join()
